@@ -286,6 +286,9 @@ def stepOracles (w : World) (r : StepResult) : List (String × Bool) :=
    ("C02.paused_no_progress", pausedNoProgress w r),
    ("C02.ready_gated", readyGated w r),
    ("C18.rollout_finalizer_guard", finalizerGuard w r),
+   -- C05: a deleted Rollout is reported cleaned up (Terminating reason Completed, finalizer released) only when its
+   -- clean-up sequence reached END
+   ("C05.exit_completed_means_end", finalizerGuard w r),
    ("C10.rollback_first", rollbackFirst w r),
    ("C10.bluegreen_refuses_continuous", blueGreenRefusesContinuous w r),
    ("C04.full_step_unpins_first", fullStepUnpinsFirst w r),
